@@ -76,6 +76,22 @@ non-presence container that is a member of a case -/
 def valdiffExcluded (X : SchemaX) (o : VOpts) (t : List DNode) : Bool :=
   keylessChange X o t || npAtRiskL X true X.q.caseDfltNpViaKids t t
 
+/-! ## the class of `valdiff_exact_partial_fresh` -/
+
+mutual
+/-- freshly built / parsed explicit data: every node carries `LYD_NEW`, none `LYD_DEFAULT`, at every depth -/
+def freshExplN : DNode → Bool
+  | .inner _ f _ ks => f.new && !f.dflt && freshExplL ks
+  | .term _ f _ _ => f.new && !f.dflt
+def freshExplL : List DNode → Bool
+  | [] => true
+  | n :: ns => freshExplN n && freshExplL ns
+end
+
+/-- every recorded change of the validation is made on the top level, on a node that is not user-ordered -/
+def topOnly (X : SchemaX) (o : VOpts) (t : List DNode) : Bool :=
+  (validate X o t).evs.all fun e => e.anc.isEmpty && !X.base.isUserOrd e.node.sid
+
 /-! ## the laws along a history (`histlaw` of harness/api_norm.c) -/
 
 mutual
@@ -96,7 +112,8 @@ def lawObserve (X : SchemaX) (o : VOpts) (fx : Diff.Fixes) (i : Nat) (t : List D
   let si := toString i
   let idem := if !v2.errs.isEmpty then "E" else if v2.diff.isEmpty then "empty" else "nonempty"
   let hyp := "sh" ++ si ++ "=" ++ lawBit (keylessChange X o t) ++ lawBit (npAtRiskL X true false t t) ++ lawBit (npAtRiskL X false true t t)
-    ++ lawBit (v.lost) ++ lawBit (valdiffExcluded X o t) ++ lawBit (valdiffExact X o fx t)
+    ++ lawBit (v.lost) ++ lawBit (valdiffExcluded X o t) ++ lawBit (valdiffExact X o fx t) ++ lawBit (freshExplL t) ++ lawBit (topOnly X o t)
+    ++ lawBit ((validate X o t).evs.isEmpty && beqL (validate X o t).tree t)
   ["idem" ++ si ++ "=" ++ idem, "same" ++ si ++ "=" ++ lawBit (beqL r2.tree r.tree)] ++
   (match Diff.apply S t v.diff fx with
    | .error e => ["apply" ++ si ++ "=" ++ e.name]
